@@ -639,7 +639,7 @@ static bool selftest(std::string* why) {
     {[](double x) { return std::fabs(x); }, 0.0, 1.0, V_KINK, "abs at 0 one-sided"},
     {[](double x) { return x < 0 ? 0.0 : 1.0; }, 0.0, 5.0, V_UNSTABLE, "step at 0"},
     {[](double x) { return std::sqrt(x); }, 0.0, 7.0, V_UNSTABLE, "sqrt at 0 (domain edge)"},
-    {[](double x) { return std::sin(1e4 * x); }, 0.5, 123.0, V_MISMATCH, "fast oscillation resolved by the small steps"},
+    {[](double x) { return std::sin(1e4 * x); }, 0.5, 123.0, V_UNSTABLE, "fast oscillation: only the small steps resolve it, they may not refute"},
     {[](double x) { return std::sin(1e4 * x); }, 0.5, 1e4 * std::cos(5e3), V_OK, "fast oscillation, correct"},
     {[](double x) { return std::sin(1e6 * x); }, 10.0, 123.0, V_UNSTABLE, "oscillation too fast for every step"},
     {[](double x) { return x == 0 ? 1e8 : std::fabs(x) < 1e-7 ? 1e8 * std::exp(-x * x * 1e16) : 0.0; }, 0.0, -1e16, V_UNSTABLE, "spike narrower than the large steps"},
